@@ -775,7 +775,13 @@ func (e *Env) appendOp(fr *Frame, s *Slice, more Value, st *State) Value {
 		e.heapSet(st, name, sorts[i], e.maybeName(mkStore(arr, resArr, newInner), sorts[i]))
 		e.noteWrite(name, resArr)
 	}
-	return &Slice{Arr: resArr, Off: resOff, Len: newLen, Cap: resCap, Typ: s.Typ}
+	res := &Slice{Arr: resArr, Off: resOff, Len: newLen, Cap: resCap, Typ: s.Typ}
+	// appending a whole byte string onto an empty slice yields a copy of it: same content id
+	// (content() is uninterpreted, so this consequence of the pointwise facts is stated here)
+	if s.Len == "0" && len(names) == 1 && isByte(et) && e.quantDepth == 0 && !fr.pure {
+		e.assume(mkImp(st.pc, mkEq(e.contentTerm(st, res), e.contentTermAt(st, m, e.heapGet(st, names[0], sorts[0])))))
+	}
+	return res
 }
 
 // copyPrefix builds the inner array of a reallocated slice: positions [0,len) hold the
@@ -796,6 +802,15 @@ func (e *Env) copyOp(fr *Frame, dst *Slice, srcv Value, rt types.Type, st *State
 	et := dst.Typ.Underlying().(*types.Slice).Elem()
 	names, sorts, leaves := e.elemArrays(et)
 	n := e.maybeName(mkIte(sx("<=", dst.Len, src.Len), dst.Len, src.Len), sInt)
+	// copy into the whole-value view of a [N]byte variable: the variable becomes
+	// afrom(bytes copied, their number, old value); afrom(abytes(a), N, x) == a
+	if vp, ok := e.arrayViews[dst.Arr]; ok && dst.Off == "0" && isByte(et) && !fr.pure {
+		e.declBytesFuncs()
+		if fl := e.flatten(e.load(st, vp)); len(fl) == 1 {
+			nv := e.maybeNameForce(sx("|afrom!|", e.contentTerm(st, src), src.Len, fl[0]), sInt, "arrv")
+			e.store(st, vp, e.fromLeaves(vp.pointee(), []string{nv}))
+		}
+	}
 	for i, name := range names {
 		arr := e.heapGet(st, name, sorts[i])
 		inner := "(Array Int " + leaves[i].Sort + ")"
